@@ -31,6 +31,7 @@ ASSUMPTIONS = [
     "2-D Hilbert decompositions are not generated (RAMSES' 2-D curve is not reproducible here); 1-D uses the identity curve; 3-D the frozen, structurally validated state diagram",
     "every position interval contains at least one finest-level cell centre on its axis (the property's precondition)",
     "the number of files opened is recorded as evidence, never judged",
+    "an explicit cpu_list may be empty (no rank: no cell) and may be a list, a tuple or an integer array; predicates may answer with 0/1 integers",
 ]
 REAL_STUB = {
     "real": ["osyris.io.hilbert (bound-key parsing, search cubes, key-interval tests)", "AmrReader.initialize / Loader cpu-list handling", "per-cell predicates on unit-carrying buffers"],
@@ -61,8 +62,10 @@ def gen_selection(rng, p, leaves=None):
             sel["level"] = gen_level_pred(rng, p["levelmin"], p["levelmax"])
         return sel
     if r < 0.12:
-        k = rng.randrange(1, p["ncpu"] + 1)
+        # (a list computed by the caller may come out empty, and may be a tuple or an integer array)
+        k = 0 if rng.random() < 0.12 else rng.randrange(1, p["ncpu"] + 1)
         sel["cpu_list"] = rng.sample(range(1, p["ncpu"] + 1), k)
+        sel["cpu_list_as"] = rng.choice(["list", "list", "tuple", "ndarray"])
         if rng.random() < 0.5:
             return sel
     if rng.random() < 0.65:
@@ -216,7 +219,9 @@ def execute(case, stats):
             if fsel:
                 kw["select"] = {"mesh": fsel}
             if sel["cpu_list"] is not None:
-                kw["cpu_list"] = list(sel["cpu_list"])
+                kw["cpu_list"] = {"list": list, "tuple": tuple, "ndarray": lambda v: np.array(v, dtype=np.int64)}[sel.get("cpu_list_as", "list")](sel["cpu_list"])
+                if not sel["cpu_list"]:
+                    stats.inc("probe.explicit_cpu_list_that_is_empty")
             site = "cpu_list" if sel["cpu_list"] is not None else ("hilbert-preselection" if (w.hilbert and sel["intervals"]) else "cell-predicates")
             if sel.get("warm") and kw:
                 # the caller's argument objects (select dictionary, cpu_list) were already used for a load by another dataset
